@@ -103,7 +103,11 @@ func NewProcess(opts ...ProcOpts) *Process {
 }
 
 func (p *Process) run() int {
-	if p.isState(types.ProcessStateTerminating) {
+	// a process stopped while it was pending (stopProcess has ended it) never runs.
+	// The state cannot tell: it is shared with later instances (manual start,
+	// restart), which would find the Terminating left by the stop and silently
+	// not launch either
+	if p.procRunCtx.Err() != nil && p.isDone() {
 		return 0
 	}
 
@@ -340,6 +344,12 @@ func (p *Process) isStarted() bool {
 	p.Lock()
 	defer p.Unlock()
 	return p.started
+}
+
+func (p *Process) isDone() bool {
+	p.Lock()
+	defer p.Unlock()
+	return p.done
 }
 
 func (p *Process) waitForCompletion() int {
